@@ -1043,9 +1043,28 @@ func genHot(r *rng, p *Plan) (nTasks, nParse int) {
 	bad := mutate(r, vals[0], ver)
 	kinds := [][]string{{kScore}, {kParse}, {kVector}, {kScore, kParse}, {kVector, kParse}, {kRTrip}, {kParse, kSet}, {kGet, kScore}, {kParse, kErrStr}}[r.intn(9)]
 	perTask := []int{8, 16, 32, 64}[r.intn(4)]
+	// the v3.0 and v3.1 packages are textual twins (and candidates for shared
+	// helpers): in some plans every other task does the same work on the same
+	// vectors in the OTHER revision
+	twinVer := 0
+	if (ver == 30 || ver == 31) && r.chance(0.4) {
+		twinVer = 61 - ver
+	}
+	verOf := func(t int) int {
+		if twinVer != 0 && t%2 == 1 {
+			return twinVer
+		}
+		return ver
+	}
+	asVer := func(s string, v int) string {
+		if v != ver && strings.HasPrefix(s, specs[ver].Header) {
+			return specs[v].Header + s[len(specs[ver].Header):]
+		}
+		return s
+	}
 	for t := 0; t < nTasks; t++ {
 		for k := 0; k < 2; k++ {
-			p.Cells = append(p.Cells, CellSpec{Ver: ver, Mode: mPriv, Owner: t, Init: vals[r.intn(len(vals))]})
+			p.Cells = append(p.Cells, CellSpec{Ver: verOf(t), Mode: mPriv, Owner: t, Init: asVer(vals[r.intn(len(vals))], verOf(t))})
 		}
 	}
 	// the values also live in shared read-only cells; tasks copy them into
@@ -1063,26 +1082,26 @@ func genHot(r *rng, p *Plan) (nTasks, nParse int) {
 		for len(ops) < perTask {
 			k := kinds[r.intn(len(kinds))]
 			c := own[r.intn(2)]
-			if r.chance(pCopy) {
+			if r.chance(pCopy) && verOf(t) == ver {
 				ops = append(ops, Op{K: kCopy, C: firstVal + r.intn(len(vals)), D: c})
 			}
-			if r.chance(0.2) && k != kSet {
+			if r.chance(0.2) && k != kSet && verOf(t) == ver {
 				c = firstVal + r.intn(len(vals)) // observe the shared object itself
 			}
 			op := Op{K: k, C: c, D: -1}
 			switch k {
 			case kParse:
 				nParse++
-				op.C, op.V = -1, ver
-				op.S = vals[r.intn(len(vals))]
+				op.C, op.V = -1, verOf(t)
+				op.S = asVer(vals[r.intn(len(vals))], verOf(t))
 				if r.chance(pBad) {
-					op.S = bad
+					op.S = asVer(bad, verOf(t))
 				}
 				if r.chance(0.5) {
 					op.D = own[r.intn(2)]
 				}
 			case kScore:
-				op.S = r.pick(apis[ver].ScoreNames())
+				op.S = r.pick(apis[verOf(t)].ScoreNames())
 			case kGet:
 				op.S = sp.Metrics[r.intn(len(sp.Metrics))].Abv
 			case kSet:
@@ -1105,7 +1124,7 @@ func genHot(r *rng, p *Plan) (nTasks, nParse int) {
 		m := sp.Metrics[r.intn(len(sp.Metrics))]
 		for t := range p.Tasks {
 			own := 2*t + r.intn(2)
-			ins := []Op{{K: kParse, V: ver, C: -1, D: own, S: fresh}}
+			ins := []Op{{K: kParse, V: verOf(t), C: -1, D: own, S: asVer(fresh, verOf(t))}}
 			nParse++
 			if r.chance(0.6) {
 				ins = append(ins, Op{K: kSet, C: own, D: -1, S: m.Abv, S2: r.pick(m.Values)})
